@@ -1110,3 +1110,132 @@ Qed.
 Lemma patch_disables_declarative_lemma :
   forall body i, In i (off_stmts true (patch body)) <-> exists j, documents body i j.
 Proof. intros body i. rewrite patch_disables_lemma. apply spec_disabled_iff_documents. Qed.
+
+(* ------------------------------------------------------------------------------------------- *)
+(* G. the whole record of global switches                                                        *)
+(* ------------------------------------------------------------------------------------------- *)
+From Coq Require Import NArith.
+
+Definition sw_equiv (a b : switches) : Prop := forall f, sw_get f a = sw_get f b.
+
+Lemma sw_get_set f g v s : sw_get f (sw_set g v s) = if N.eqb f g then Some v else sw_get f s.
+Proof.
+  induction s as [|[h w] s IH]; cbn; [reflexivity|].
+  destruct (N.eqb g h) eqn:E; cbn.
+  - apply N.eqb_eq in E. subst h. destruct (N.eqb f g); reflexivity.
+  - rewrite IH. destruct (N.eqb f h) eqn:E'; [|reflexivity].
+    apply N.eqb_eq in E'. subst h. destruct (N.eqb f g) eqn:E''; [|reflexivity].
+    apply N.eqb_eq in E''. subst g. rewrite N.eqb_refl in E. discriminate.
+Qed.
+
+Lemma last_write_acc f ws acc :
+  last_write f ws acc = match last_write f ws None with Some x => Some x | None => acc end.
+Proof.
+  revert acc; induction ws as [|[g v] ws IH]; intros acc; cbn; [reflexivity|].
+  destruct (N.eqb f g); [|apply IH]. rewrite (IH (Some v)). destruct (last_write f ws None); reflexivity.
+Qed.
+
+Lemma get_apply_writes ws s f :
+  sw_get f (apply_writes ws s) = match last_write f ws None with Some v => Some v | None => sw_get f s end.
+Proof.
+  unfold apply_writes. revert s; induction ws as [|[g v] ws IH]; intros s; cbn [fold_left last_write fst snd]; [reflexivity|].
+  rewrite IH, sw_get_set, (last_write_acc f ws (if N.eqb f g then Some v else None)).
+  destruct (last_write f ws None); [reflexivity|]. destruct (N.eqb f g); reflexivity.
+Qed.
+
+Definition all_writes (P : procs) : writes := w_disable P ++ w_enable P ++ w_reset P.
+Definition written (P : procs) (f : N) : bool := existsb (fun w : N * bool => N.eqb f (fst w)) (all_writes P).
+
+Lemma last_write_none f ws : existsb (fun w : N * bool => N.eqb f (fst w)) ws = false -> last_write f ws None = None.
+Proof.
+  induction ws as [|[g v] ws IH]; cbn; [reflexivity|]. intros H. apply orb_false_iff in H. destruct H as [H1 H2].
+  rewrite H1. now apply IH.
+Qed.
+
+Lemma written_parts P f : written P f = false ->
+  last_write f (w_disable P) None = None /\ last_write f (w_enable P) None = None /\ last_write f (w_reset P) None = None.
+Proof.
+  unfold written, all_writes. rewrite !existsb_app. intros H.
+  apply orb_false_iff in H. destruct H as [H1 H]. apply orb_false_iff in H. destruct H as [H2 H3].
+  repeat split; now apply last_write_none.
+Qed.
+
+(* fields nobody writes keep their default *)
+Definition sw_inv (P : procs) (s0 s : switches) : Prop := forall f, written P f = false -> sw_get f s = sw_get f s0.
+
+Lemma sw_inv_op P s0 s o : sw_inv P s0 s -> sw_inv P s0 (sw_op P s o).
+Proof.
+  intros H f Hf. destruct (written_parts P f Hf) as (H1 & H2 & H3).
+  destruct o; cbn [sw_op]; rewrite get_apply_writes, ?H1, ?H2, ?H3; now apply H.
+Qed.
+
+Lemma sw_reset_restores P s0 s : covers P s0 = true -> sw_inv P s0 s -> sw_equiv (sw_op P s OpReset) s0.
+Proof.
+  intros Hc Hi f. cbn [sw_op]. rewrite get_apply_writes.
+  destruct (written P f) eqn:Hw.
+  - unfold written in Hw. apply existsb_exists in Hw. destruct Hw as (w & Hin & E). apply N.eqb_eq in E. subst f.
+    unfold covers in Hc. rewrite forallb_forall in Hc. specialize (Hc w Hin).
+    destruct (last_write (fst w) (w_reset P) None) as [v|]; [|discriminate].
+    destruct (sw_get (fst w) s0) as [x|]; cbn in Hc; [|discriminate]. apply Bool.eqb_prop in Hc. now subst.
+  - destruct (written_parts P f Hw) as (_ & _ & H3). rewrite H3. now apply Hi.
+Qed.
+
+Lemma sw_inv_ops P s0 : forall ops s, sw_inv P s0 s -> sw_inv P s0 (sw_ops P s ops).
+Proof. unfold sw_ops. induction ops as [|o ops IH]; intros s H; cbn; [exact H|]. apply IH. now apply sw_inv_op. Qed.
+
+Lemma reset_restores_all_switches_lemma :
+  forall P s0, covers P s0 = true -> forall ops, sw_equiv (sw_op P (sw_ops P s0 ops) OpReset) s0.
+Proof. intros P s0 Hc ops. apply sw_reset_restores; [exact Hc|]. apply sw_inv_ops. intros f _. reflexivity. Qed.
+
+Lemma sw_inv_run P s0 : forall l s, sw_inv P s0 s -> sw_inv P s0 (sw_run P s l).
+Proof.
+  unfold sw_run. induction l as [|x l IH]; intros s H; cbn [fold_left]; [exact H|]. apply IH.
+  destruct x; cbn [sw_pstmt]; try exact H; now apply sw_inv_op.
+Qed.
+
+Lemma sw_run_restored P s0 : covers P s0 = true ->
+  forall l s, sw_equiv s s0 -> exec true l = true -> sw_equiv (sw_run P s l) s0.
+Proof.
+  intros Hc l. induction l as [|x l IH] using rev_ind; intros s Hs He; [exact Hs|].
+  unfold sw_run. rewrite fold_left_app. cbn [fold_left]. fold (sw_run P s l).
+  unfold exec in He. rewrite fold_left_app in He. cbn [fold_left] in He.
+  destruct x; cbn [sw_pstmt pstmt_run] in *.
+  - apply IH; assumption.
+  - cbn in He. discriminate.
+  - apply sw_reset_restores; [exact Hc|]. apply sw_inv_run. intros f _. apply Hs.
+  - apply IH; assumption.
+Qed.
+
+Lemma patch_switches_restored_lemma :
+  forall P s0, covers P s0 = true -> forall body, sw_equiv (sw_run P s0 (patch body)) s0.
+Proof. intros P s0 Hc body. apply (sw_run_restored P s0 Hc); [intros f; reflexivity|apply patch_flag_restored_lemma]. Qed.
+
+Lemma pages_switches_restored_lemma :
+  forall P s0, covers P s0 = true -> forall mods, sw_equiv (sw_pages P s0 mods) s0.
+Proof.
+  intros P s0 Hc mods. unfold sw_pages.
+  assert (G : forall s, sw_equiv s s0 -> sw_equiv (fold_left (fun acc m => sw_run P acc (patch m)) mods s) s0).
+  { induction mods as [|m mods IH]; intros s Hs; cbn [fold_left]; [exact Hs|]. apply IH.
+    apply (sw_run_restored P s0 Hc); [exact Hs|apply patch_flag_restored_lemma]. }
+  apply G. intros f; reflexivity.
+Qed.
+
+(* the code as it stands: only `evaluate` (field 1) is written; defaults evaluate=true, distribute=true, exp_is_pow=false *)
+Example covers_current_code :
+  covers (mkProcs [(1%N, false)] [(1%N, true)] [(1%N, true)]) [(0%N, true); (1%N, true); (2%N, false)] = true.
+Proof. vm_compute. reflexivity. Qed.
+
+(* a disable that also switches `distribute` (field 0) off while reset does not write it is NOT covered, and leaks *)
+Example uncovered_switch_leaks :
+  let P := mkProcs [(1%N, false); (0%N, false)] [(1%N, true)] [(1%N, true)] in
+  let s0 := [(0%N, true); (1%N, true); (2%N, false)] in
+  covers P s0 = false /\ uncovered P s0 = [0%N]
+  /\ sw_run P s0 (patch [SConst false false false; Assign [Some "law"%string]; SConst false true true])
+     = [(0%N, false); (1%N, true); (2%N, false)].
+Proof. vm_compute. repeat split. Qed.
+
+(* exception path: stopping inside a disabled region leaves the record changed (outside "once it finishes") *)
+Example exception_path_leaks :
+  sw_run (mkProcs [(1%N, false)] [(1%N, true)] [(1%N, true)]) [(0%N, true); (1%N, true); (2%N, false)] [PImport; PDisable]
+  = [(0%N, true); (1%N, false); (2%N, false)].
+Proof. vm_compute. reflexivity. Qed.
